@@ -176,3 +176,38 @@ pub fn run_until_stop(vm: &mut Vm, max_steps: u64) -> (Step, u64) {
         }
     }
 }
+
+/// Execute the instruction at `$pc`; also tells whether the VM was inside a called
+/// contract *before* the step (`$fp != 0`). A `Return`/`ReturnData` step taken inside
+/// a call returns to the caller and execution continues; at top level it ends the
+/// script. `Revert`, `Panic`, `Error`, `HostPanic` always end the execution.
+pub fn step_ctx(vm: &mut Vm) -> (Step, bool) {
+    let in_call = reg(vm, RegId::FP) != 0;
+    (step(vm), in_call)
+}
+
+pub fn is_final(step: &Step, was_in_call: bool) -> bool {
+    match step {
+        Step::Proceed => false,
+        Step::Return(_) | Step::ReturnData(_) => !was_in_call,
+        _ => true,
+    }
+}
+
+/// Run until the script ends (see `is_final`) or `max_steps` instructions ran.
+/// `on_step(vm_after, step, was_in_call)` is called after every instruction.
+pub fn run_to_end(
+    vm: &mut Vm,
+    max_steps: u64,
+    mut on_step: impl FnMut(&Vm, &Step, bool),
+) -> (Step, u64) {
+    let mut n = 0;
+    loop {
+        let (s, in_call) = step_ctx(vm);
+        n += 1;
+        on_step(vm, &s, in_call);
+        if is_final(&s, in_call) || n >= max_steps {
+            return (s, n)
+        }
+    }
+}
